@@ -279,13 +279,15 @@ func allChecksRaw() []*Check {
 			Files: files([]string{"gtree/common.go", "gtree/progtree.go"}, filesVFS, []string{"gtree/c06.go", "gtree/c08.go"}),
 			Quick: []Job{
 				gjf("C08.n3x1", "VerifC08", 13, "C08.readonly", "C08.iff/same", "C08.iff/differs", "C08.type", "C08.sound.missing", "C08.exact.missing", "C08.sound.extra", "C08.exact.extra", "C08.text"),
+				gjf("C08.bytes.n3x1", "VerifC08", 213, "C08.readonly", "C08.iff/same", "C08.iff/differs", "C08.sound.missing", "C08.exact.missing", "C08.text"),
 				gjf("C08.mkdir.n3", "VerifC08Mkdir", 3, "C08.mkdir.made", "C08.mkdir.verifies", "C08.mkdir.readonly"),
 			},
 			Thorough: []Job{
 				gjf("C08.n3x2", "VerifC08", 23, "C08.readonly", "C08.iff/same", "C08.iff/differs", "C08.type", "C08.sound.missing", "C08.exact.missing", "C08.sound.extra", "C08.exact.extra", "C08.text"),
+				gjf("C08.bytes.n3x1.full", "VerifC08", 113, "C08.readonly", "C08.iff/same", "C08.iff/differs", "C08.sound.missing", "C08.exact.missing", "C08.sound.extra", "C08.exact.extra", "C08.text"),
 				gjf("C08.mkdir.n4", "VerifC08Mkdir", 4, "C08.mkdir.made", "C08.mkdir.verifies", "C08.mkdir.readonly"),
 			},
-			Bounds: "forests of N=3 rows (distinct roots; From-Markdown forest or From-Root single tree), every downward-closed subset of node paths present, childless present nodes as directory or file (so a root may be a file), 0..1 (quick) / 0..2 (thorough) extra entries (directory or regular file, listed by the walk before or after the node's own children) at solver-chosen places beneath present directories, strict or not; the verdict, the two lists of the first differing root (set equality, through the error value and its public text) and read-only-ness. Mkdir-then-verify with 0..2 opaque extensions for N=3/4. Outside: N >= 4 for the state-space job (did not finish in 30 min), massive mode (C10).",
+			Bounds: "forests of N=3 rows (distinct roots; From-Markdown forest or From-Root single tree), every downward-closed subset of node paths present, childless present nodes as directory or file (so a root may be a file), 0..1 (quick) / 0..2 (thorough) extra entries (directory or regular file, listed by the walk before or after the node's own children) at solver-chosen places beneath present directories, strict or not; the verdict, the two lists of the first differing root (set equality, through the error value and its public text) and read-only-ness. Mkdir-then-verify with 0..2 opaque extensions for N=3/4. Outside: N >= 4 for the state-space job (did not finish in 30 min), massive mode (C10). Byte level (real filepath code, no path contracts; added after seed s83): forests of 3 rows + 1 extra entry whose names are 1..2 bytes over the alphabet {'-', '.', '0', 'a'} (bytes on both sides of '/' in byte order), all but the last node present as directories, strict and non-strict, From-Markdown; the model lists every directory in the order of the names, as fs.WalkDir does, so that the order of a listing and the string order of full paths can disagree (quick: one two-byte name per three; thorough: every length combination).",
 			Assume: append([]string{parseContract, pathContract, fsModel, "fs.WalkDir modelled as: callback once per entry beneath the root, parents before children, in the order the harness lists them; SkipDir on a directory skips its subtree, on a file the rest of its directory; SkipAll ends the walk; root missing -> callback with fs.ErrNotExist, root a file -> callback with a non-ErrNotExist error"}, commonAssume...),
 		},
 		{
